@@ -188,7 +188,8 @@ def main():
                 real_fail = [f for f in r['failed_checks'] if 'unwinding assertion' not in f['desc']
                              and not re.search(r'not currently supported|unsupported', f['desc'])]
                 if r['status'] == 'ok':
-                    if r['covers_total'] and r['covers_satisfied'] < r['covers_total'] and not m.get('allow_unsat_covers'):
+                    need = m.get('min_covers', r['covers_total'])     # a harness instantiated at a bound where some cover is unreachable states how many must be hit
+                    if r['covers_total'] and r['covers_satisfied'] < need and not m.get('allow_unsat_covers'):
                         ob['status'] = 'undecided'
                         undecided.append('kani %s: vacuity guard: only %d of %d covers satisfied' % (h, r['covers_satisfied'], r['covers_total']))
                     else:
